@@ -3,6 +3,7 @@
    (compared here with the model's run of the same history) and an id-free view of what the
    server answers, once from the incrementally updated database and once from a database
    built from scratch on the current texts. *)
+From Coq Require Import ZArith.
 From IweV Require Export Check_Norm ArenaWF Index Paths.
 Local Open Scope string_scope.
 Local Open Scope list_scope.
@@ -172,9 +173,27 @@ Definition paths_corr (gs : gstate) (ps : list string) : bool :=
   | Panic _ => match ps with [p] => starts_with "PANIC" p | _ => false end
   end.
 
+(* one search result as the harness prints it: rank|key|line|root|search text *)
+Definition sp_str (p : spath) : string :=
+  dec (sp_rank p) +++ "|" +++ sp_key p +++ "|" +++ dec (sp_line p) +++ "|" +++
+  (if sp_root p then "true" else "false") +++ "|" +++ sp_text p.
+
+(* Database::global_search("") on the threaded state: Graph::search_paths (graph.rs:75-97), every
+   fuzzy score 0, the comparator of database.rs:57-69, the first 100 *)
+Definition model_search (gs : gstate) : res (list spath) :=
+  do sps <- search_paths true gs;
+  Ok (global_search true (map (fun p => (p, 0%Z)) sps)).
+
+Definition search_corr (gs : gstate) (obs : list string) : bool :=
+  match model_search gs with
+  | Ok l => strs_eqb_l (map sp_str l) obs
+  | Panic _ => match obs with [p] => starts_with "PANIC" p | _ => false end
+  end.
+
 Definition index_corr_step (g : res gstate) (inc : option idfree) : list N :=
   match g, inc with
-  | Ok gs, Some i => flag 7 (back_corr gs (if_back i)) ++ flag 8 (paths_corr gs (if_paths i))
+  | Ok gs, Some i => flag 7 (back_corr gs (if_back i)) ++ flag 8 (paths_corr gs (if_paths i)) ++
+                     flag 9 (search_corr gs (if_search i))
   | _, _ => []
   end.
 
@@ -217,6 +236,56 @@ Definition hist_classes (c : histcase) : list N := [].
 Definition run_C20 (c : histcase) : verdict :=
   V (hist_corr c) (hist_wf c) (hist_classes c) (hist_nontrivial c).
 
+(* known-finding class 3 of C04 (F-SEARCHTIE, DESIGN F15): at some state of the history two listed
+   search paths TIE under both comparators - Graph::search_paths orders by node_rank (descending),
+   then key (graph.rs:88-95); Database::global_search("") by node_rank (descending), then length of
+   the search text (database.rs:59-63); both sorts are stable - so the two entries stay in the order of
+   Graph::paths(), which is the order of their node-id vectors (path.rs:101).  When the first ids in
+   which the two paths differ belong to DIFFERENT notes, that order is the order in which those notes
+   were last built: by key in a fresh import, by time of the last update in a running server.  (Ids of
+   one note are handed out in document order by every build, and a path that is a prefix of the other
+   comes first everywhere: such ties are the same in every history and are not in the class.)
+   The class is decided on the model's run of the history (the input texts through Paths.search_paths);
+   two entries that print alike cannot be told apart and do not count. *)
+Fixpoint first_diff (p q : list nat) : option (nat * nat) :=
+  match p, q with
+  | x :: p', y :: q' => if Nat.eqb x y then first_diff p' q' else Some (x, y)
+  | _, _ => None
+  end.
+Definition sp_tie (gs : gstate) (x y : spath) : bool :=
+  Nat.eqb (sp_rank x) (sp_rank y) && String.eqb (sp_key x) (sp_key y) &&
+  Nat.eqb (String.length (sp_text x)) (String.length (sp_text y)) &&
+  negb (String.eqb (sp_str x) (sp_str y)) &&
+  match first_diff (sp_ids x) (sp_ids y) with
+  | Some (a, b) =>
+      match Index.node_key (gr_arena (gs_graph gs)) a, Index.node_key (gr_arena (gs_graph gs)) b with
+      | Ok ka, Ok kb => negb (String.eqb ka kb)
+      | _, _ => false
+      end
+  | None => false
+  end.
+Fixpoint has_tie (gs : gstate) (l : list spath) : bool :=
+  match l with [] => false | x :: r => existsb (sp_tie gs x) r || has_tie gs r end.
+Definition search_tie_state (g : res gstate) : bool :=
+  match g with
+  | Ok gs => match search_paths true gs with Ok l => has_tie gs l | Panic _ => false end
+  | Panic _ => false
+  end.
+Definition hist_search_tie (c : histcase) : bool :=
+  existsb search_tie_state (model_gstates (hist_state0 c) (hc_steps c)).
+
+Definition c04_classes (c : histcase) : list N := hist_classes c ++ flag 3 (negb (hist_search_tie c)).
+
+(* which classes can explain the failure of which sub-property of C04: the corrupted arena of
+   F-ITEMLEAD any of them, a search tie only the order of the search results (6) *)
+Definition explain_C04 (p : N) : list N := if N.eqb p 6 then [2%N; 3%N] else [2%N].
+Definition explain_hist (explain : N -> list N) (fails cls : list N) : list N * list N :=
+  let per := map (fun p => (p, filter (fun k => existsb (N.eqb k) cls) (explain p))) fails in
+  match filter (fun x => match snd x with [] => true | _ => false end) per with
+  | [] => (fails, match fails with [] => cls | _ => dedup_N (flat_map snd per) end)
+  | bad => (map fst bad, [])
+  end.
+
 (* ---------- C04: incremental = fresh ------------------------------------------------------- *)
 
 Definition texts_eqb (a b : list (string * res string)) : bool :=
@@ -248,7 +317,8 @@ Definition hist_c04 (c : histcase) : list N := dedup_stages (flat_map step_c04 (
 (* the index and path models are compared on every history (the arenas are forests on all of
    them since the repair of F-ITEMLEAD) *)
 Definition run_C04 (c : histcase) : verdict :=
-  V (dedup_stages (hist_corr c ++ hist_index_corr c)) (hist_c04 c) (hist_classes c) (hist_nontrivial c).
+  let '(f, k) := explain_hist explain_C04 (hist_c04 c) (c04_classes c) in
+  V (dedup_stages (hist_corr c ++ hist_index_corr c)) f k (hist_nontrivial c).
 
 Definition run_HIST (c : histcase) : verdict :=
   V (hist_corr c) (hist_c04 c ++ map (fun x => (10 + x)%N) (hist_wf c)) (hist_classes c) (hist_nontrivial c).
